@@ -83,6 +83,7 @@ func checkC20(p *Prog, r *Report) {
 	} else {
 		r.FuncsSeen[funcKey(cb)] = true
 		keyP := cb.Params[1]
+		var pe *PathEnum
 		isLookup := func(v ssa.Value) bool {
 			// map lookup authorizedKeys[string(pubKey.Marshal())]
 			lk, ok := v.(*ssa.Lookup)
@@ -99,7 +100,7 @@ func checkC20(p *Prog, r *Report) {
 				return false
 			}
 			mc, isCall := cv.X.(*ssa.Call)
-			return isCall && mc.Common().IsInvoke() && mc.Common().Method.Name() == "Marshal" && mc.Common().Value == ssa.Value(keyP)
+			return isCall && mc.Common().IsInvoke() && mc.Common().Method.Name() == "Marshal" && pe.C(mc.Common().Value) == ssa.Value(keyP)
 		}
 		atom := func(cond ssa.Value) (string, bool, bool) {
 			if bo, ok := cond.(*ssa.BinOp); ok && (bo.Op == token.EQL || bo.Op == token.NEQ) && isFieldLoad(bo.X, akF) && isNilConst(bo.Y) {
@@ -110,10 +111,14 @@ func checkC20(p *Prog, r *Report) {
 			}
 			return "", false, false
 		}
-		pe := &PathEnum{Atom: atom, BackEdge: "loop", Outcome: func(last ssa.Instruction, _ []string) string {
+		// the decision may live in a method of the listener that the literal forwards to
+		pe = &PathEnum{Atom: atom, BackEdge: "loop", Inline: func(h *ssa.Function) bool { return pkgPathOfFunc(h) == pkgAnonssh }, Outcome: func(last ssa.Instruction, _ []string) string {
 			ret, ok := last.(*ssa.Return)
 			if !ok {
 				return "panic"
+			}
+			if nl, known := pe.NilOf(retResults(ret)[1]); known && nl {
+				return "accept"
 			}
 			if isNilConst(retResults(ret)[1]) {
 				return "accept"
